@@ -106,4 +106,18 @@ v("c01-seekge-hasprefix", "C01", "C01.g", [(QRY, "\tfound := iter.SeekPrefixGE(k
 v("c01-bounds-alias-pooled-buffer", "C01", "C01.g", [(ITER, "\t\titerOptions.UpperBound = make([]byte, highBuf.Len())\n\t\tcopy(iterOptions.UpperBound, highBuf.Bytes())", "\t\titerOptions.UpperBound = highBuf.Bytes()")], "agent mutant C09-m2 in essence")
 v("c09-bounds-alias-pooled-buffer", "C09", "C09.f", [(ITER, "\t\titerOptions.UpperBound = make([]byte, highBuf.Len())\n\t\tcopy(iterOptions.UpperBound, highBuf.Bytes())", "\t\titerOptions.UpperBound = highBuf.Bytes()")], "agent mutant C09-m2 in essence")
 
+# ---------------- C10 ----------------
+REPL = "regattaserver/replication.go"
+v("c10-f2-parent", "C10", "C10.a2", [(FSM, "if _, noop := cmd.(commandDummy); !noop {", "if len(res.Responses) > 0 {")], "parent of fix F2")
+v("c10-revision-plus-one", "C10", "C10.a1", [("storage/table/fsm/command_dummy.go", "Revision: ctx.index}, nil", "Revision: ctx.index + 1}, nil")])
+v("c10-read-ignores-flag", "C10", "C10.b", [(TBL, "\tif linearizable {\n\t\tval, err = t.nh.SyncRead(ctx, t.ClusterID, req)\n\t} else {\n\t\tval, err = t.nh.StaleRead(t.ClusterID, req)\n\t}", "\t_ = linearizable\n\tval, err = t.nh.StaleRead(t.ClusterID, req)")])
+v("c10-readonly-txn-stale", "C10", "C10.b", [(TBL, "return readTable[*regattapb.TxnResponse](t, ctx, true, req)", "return readTable[*regattapb.TxnResponse](t, ctx, false, req)")])
+v("c10-range-flag-dropped", "C10", "C10.b", [(TBL, "readTable[*regattapb.ResponseOp_Range](t, ctx, req.Linearizable, &regattapb.RequestOp_Range{", "readTable[*regattapb.ResponseOp_Range](t, ctx, req.Linearizable && req.Limit == 0, &regattapb.RequestOp_Range{")])
+v("c10-header-revision-from-getheader", "C10", "C10.a3", [("storage/engine.go", "\theader.ReplicaId = e.cfg.NodeID\n", "\theader.ReplicaId = e.cfg.NodeID\n\theader.Revision = shardID\n")])
+v("c10-put-revision-zero", "C10", "C10.a3", [(TBL, "return &regattapb.PutResponse{PrevKv: r.ResponsePut.PrevKv, Header: &regattapb.ResponseHeader{Revision: rev}}, nil", "_ = rev\n\treturn &regattapb.PutResponse{PrevKv: r.ResponsePut.PrevKv, Header: &regattapb.ResponseHeader{Revision: uint64(len(r.ResponsePut.PrevKv.GetKey()))}}, nil")])
+v("c10-replicate-first-read-stale", "C10", "C10.b", [(REPL, "appliedIndex, err := t.LocalIndex(ctx, true)", "appliedIndex, err := t.LocalIndex(ctx, false)")])
+v("c10-swapped-read-calls", "C10", "C10.b", [(TBL, "\tif linearizable {\n\t\tval, err = t.nh.SyncRead(ctx, t.ClusterID, req)\n\t} else {\n\t\tval, err = t.nh.StaleRead(t.ClusterID, req)\n\t}", "\tif !linearizable {\n\t\tval, err = t.nh.SyncRead(ctx, t.ClusterID, req)\n\t} else {\n\t\tval, err = t.nh.StaleRead(t.ClusterID, req)\n\t}")])
+v("c10-n-flip-read-branches", "C10", "none", [(TBL, "\tif linearizable {\n\t\tval, err = t.nh.SyncRead(ctx, t.ClusterID, req)\n\t} else {\n\t\tval, err = t.nh.StaleRead(t.ClusterID, req)\n\t}", "\tif !linearizable {\n\t\tval, err = t.nh.StaleRead(t.ClusterID, req)\n\t} else {\n\t\tval, err = t.nh.SyncRead(ctx, t.ClusterID, req)\n\t}")])
+v("c10-n-noop-check-inverted-shape", "C10", "none", [(FSM, "\t\tif _, noop := cmd.(commandDummy); !noop {\n\t\t\tbts, err := res.MarshalVT()\n\t\t\tif err != nil {\n\t\t\t\treturn nil, err\n\t\t\t}\n\t\t\tupdates[i].Result.Data = bts\n\t\t}", "\t\tswitch cmd.(type) {\n\t\tcase commandDummy:\n\t\tdefault:\n\t\t\tbts, err := res.MarshalVT()\n\t\t\tif err != nil {\n\t\t\t\treturn nil, err\n\t\t\t}\n\t\t\tupdates[i].Result.Data = bts\n\t\t}")])
+
 json.dump(V, sys.stdout, indent=1)
